@@ -27,9 +27,18 @@ struct PubGraph : public bpp::GlobalGraph {
   using bpp::GlobalGraph::setRoot;
 };
 
-struct NObj { int tag; int payload; };
-struct EObj { int tag; int payload; };
+// Two pairs of object types, convertible into each other: observers of <NObj,EObj> are the ones the histories operate
+// on; an observer of <NObj2,EObj2> is the target (and, converting back, the source) of the converting copy constructor
+// AssociationGraphImplObserver(AssociationGraphImplObserver<N2,E2,GraphImpl> const&), which copies objects by B(const A&).
+struct NObj2; struct EObj2;
+struct NObj { int tag; int payload; NObj(int t, int p) : tag(t), payload(p) {} NObj(const NObj2& o); };
+struct EObj { int tag; int payload; EObj(int t, int p) : tag(t), payload(p) {} EObj(const EObj2& o); };
+struct NObj2 { int tag; int payload; char other; NObj2(const NObj& o) : tag(o.tag), payload(o.payload), other('N') {} };
+struct EObj2 { int tag; int payload; char other; EObj2(const EObj& o) : tag(o.tag), payload(o.payload), other('E') {} };
+inline NObj::NObj(const NObj2& o) : tag(o.tag), payload(o.payload) {}
+inline EObj::EObj(const EObj2& o) : tag(o.tag), payload(o.payload) {}
 typedef bpp::AssociationGlobalGraphObserver<NObj, EObj> Obs;
+typedef bpp::AssociationGlobalGraphObserver<NObj2, EObj2> Obs2;
 typedef std::shared_ptr<NObj> NP;
 typedef std::shared_ptr<EObj> EP;
 
